@@ -69,6 +69,10 @@ func (f *File) Read(p []byte) (int, error) {
 		w.done(seq, op, f.name, 0, err, flt, fi, false)
 		return 0, err
 	}
+	if len(p) == 0 && f.std == 0 && f.n.kind != 'd' {
+		w.done(seq, op, f.name, 0, nil, flt, fi, false)
+		return 0, nil // a zero-length read never reaches the system call
+	}
 	if !f.rd {
 		err := pathErr("read", f.name, syscall.EBADF)
 		w.done(seq, op, f.name, 0, err, flt, fi, false)
@@ -94,6 +98,9 @@ func (f *File) Read(p []byte) (int, error) {
 		src = w.spec.Stdin
 	} else {
 		src = f.n.data
+	}
+	if (flt != nil && flt.Kind == "stall" || w.spec.HeldOpen) && f.std == 1 && len(p) > 0 && f.off >= len(src) {
+		stalled(seq, op, f.name, flt, fi)
 	}
 	if len(p) == 0 {
 		w.done(seq, op, f.name, 0, nil, flt, fi, false)
@@ -240,9 +247,13 @@ func (f *File) Stat() (fs.FileInfo, error) {
 
 func (f *File) Seek(offset int64, whence int) (int64, error) {
 	probe("File.Seek")
+	if f.closed {
+		return 0, &fs.PathError{Op: "seek", Path: f.name, Err: os.ErrClosed}
+	}
 	if f.std != 0 {
 		return 0, pathErr("seek", f.name, syscall.ESPIPE)
 	}
+	old := f.off
 	switch whence {
 	case io.SeekStart:
 		f.off = int(offset)
@@ -252,7 +263,7 @@ func (f *File) Seek(offset int64, whence int) (int64, error) {
 		f.off = len(f.n.data) + int(offset)
 	}
 	if f.off < 0 {
-		f.off = 0
+		f.off = old // a failed seek leaves the position alone
 		return 0, pathErr("seek", f.name, syscall.EINVAL)
 	}
 	return int64(f.off), nil
@@ -334,9 +345,13 @@ func (f *File) Readdirnames(n int) ([]string, error) {
 
 func (f *File) Chown(uid, gid int) error { probe("File.Chown"); return nil }
 
-func (f *File) SetDeadline(t time.Time) error      { return pathErr("SetDeadline", f.name, syscall.ENOTSUP) }
-func (f *File) SetReadDeadline(t time.Time) error  { return pathErr("SetDeadline", f.name, syscall.ENOTSUP) }
-func (f *File) SetWriteDeadline(t time.Time) error { return pathErr("SetDeadline", f.name, syscall.ENOTSUP) }
+func (f *File) SetDeadline(t time.Time) error { return pathErr("SetDeadline", f.name, syscall.ENOTSUP) }
+func (f *File) SetReadDeadline(t time.Time) error {
+	return pathErr("SetDeadline", f.name, syscall.ENOTSUP)
+}
+func (f *File) SetWriteDeadline(t time.Time) error {
+	return pathErr("SetDeadline", f.name, syscall.ENOTSUP)
+}
 
 // ---- os package level --------------------------------------------------------------
 
@@ -359,10 +374,38 @@ func OpenFile(name string, flag int, perm fs.FileMode) (*File, error) {
 		return nil, err
 	}
 	n, parent, base, errno := w.lookup(name, true)
+	if flag&os.O_CREATE != 0 && len(name) > 1 && strings.HasSuffix(name, "/") {
+		// open("x/", O_CREAT): once the directory holding x is resolved the kernel answers EISDIR without
+		// looking at x at all (file, directory, link or missing)
+		dir := "."
+		if t := trimSlash(name); strings.LastIndex(t, "/") == 0 {
+			dir = "/"
+		} else if i := strings.LastIndex(t, "/"); i > 0 {
+			dir = t[:i]
+		}
+		switch d, _, _, e0 := w.lookup(dir, true); {
+		case e0 != 0:
+			errno, parent = e0, nil
+		case d.kind != 'd':
+			errno, parent = syscall.ENOTDIR, nil
+		default:
+			errno, parent = syscall.EISDIR, nil
+		}
+	}
+	if flag&os.O_CREATE != 0 && flag&os.O_EXCL != 0 && errno != syscall.EISDIR {
+		// O_EXCL does not follow a symbolic link in the last component: a dangling link "exists"
+		if _, _, _, e2 := w.lookup(name, false); e2 == 0 {
+			errno = syscall.EEXIST
+		}
+	}
 	if errno == syscall.ENOENT && parent != nil && flag&os.O_CREATE != 0 {
-		n = &node{kind: 'f'}
-		parent.children[base] = n
-		errno = 0
+		if len(name) > 1 && strings.HasSuffix(name, "/") {
+			errno = syscall.EISDIR // open("x/", O_CREAT): a regular file cannot be named with a trailing slash
+		} else {
+			n = &node{kind: 'f'}
+			parent.children[base] = n
+			errno = 0
+		}
 	} else if errno == 0 && flag&os.O_CREATE != 0 && flag&os.O_EXCL != 0 {
 		errno = syscall.EEXIST
 	}
@@ -458,7 +501,7 @@ func Mkdir(name string, perm fs.FileMode) error {
 		w.done(seq, "mkdir", name, 0, err, flt, fi, true)
 		return err
 	}
-	n, parent, base, errno := w.lookup(name, true)
+	n, parent, base, errno := w.lookup(trimSlash(name), false) // mkdir does not follow a link in the last component
 	if errno == 0 && n != nil {
 		errno = syscall.EEXIST
 	} else if errno == syscall.ENOENT && parent != nil {
@@ -474,7 +517,7 @@ func Mkdir(name string, perm fs.FileMode) error {
 }
 
 // MkdirAll is one I/O step (the fault model does not distinguish which
-// component failed).
+// component failed); inside, it is the standard library's algorithm on the simulated tree.
 func MkdirAll(path string, perm fs.FileMode) error {
 	seq, flt, fi := w.step()
 	if e := faultErrno(flt); e != 0 {
@@ -482,27 +525,50 @@ func MkdirAll(path string, perm fs.FileMode) error {
 		w.done(seq, "mkdirall", path, 0, err, flt, fi, true)
 		return err
 	}
-	var err error
-	abs := w.abs(path)
-	cur := "/"
-	for _, c := range splitPath(abs) {
-		cur = filepath.Join(cur, c)
-		n, parent, base, errno := w.lookup(cur, true)
-		switch {
-		case errno == 0 && n.kind == 'd':
-		case errno == 0:
-			err = pathErr("mkdir", cur, syscall.ENOTDIR)
-		case errno == syscall.ENOENT && parent != nil:
-			parent.children[base] = &node{kind: 'd', children: map[string]*node{}}
-		default:
-			err = pathErr("mkdir", cur, errno)
-		}
-		if err != nil {
-			break
-		}
-	}
+	err := w.mkdirAll(path)
 	w.done(seq, "mkdirall", path, 0, err, flt, fi, false)
 	return err
+}
+
+func (w *world) mkdirAll(path string) error {
+	if n, _, _, errno := w.lookup(path, true); errno == 0 {
+		if n.kind == 'd' {
+			return nil
+		}
+		return pathErr("mkdir", path, syscall.ENOTDIR)
+	}
+	i := len(path)
+	for i > 0 && path[i-1] == '/' {
+		i--
+	}
+	j := i
+	for j > 0 && path[j-1] != '/' {
+		j--
+	}
+	if j > 1 {
+		if err := w.mkdirAll(path[:j-1]); err != nil {
+			return err
+		}
+	}
+	n, parent, base, errno := w.lookup(trimSlash(path), false)
+	switch {
+	case errno == 0 && n != nil:
+		errno = syscall.EEXIST
+	case errno == syscall.ENOENT && parent != nil:
+		parent.children[base] = &node{kind: 'd', children: map[string]*node{}}
+		return nil
+	}
+	if n2, _, _, e2 := w.lookup(path, false); e2 == 0 && n2.kind == 'd' {
+		return nil
+	}
+	return pathErr("mkdir", path, errno)
+}
+
+func trimSlash(p string) string {
+	for len(p) > 1 && strings.HasSuffix(p, "/") {
+		p = p[:len(p)-1]
+	}
+	return p
 }
 
 func Remove(name string) error {
@@ -512,9 +578,12 @@ func Remove(name string) error {
 		w.done(seq, "remove", name, 0, err, flt, fi, true)
 		return err
 	}
-	n, parent, base, errno := w.lookup(name, false)
+	n, parent, base, errno := w.lookup(trimSlash(name), false)
 	if errno == 0 && parent == nil {
 		errno = syscall.EINVAL
+	}
+	if errno == 0 && n.kind != 'd' && len(name) > 1 && strings.HasSuffix(name, "/") {
+		errno = syscall.ENOTDIR // "x/" names a directory; a file or a link (even to a directory) is not removed through it
 	}
 	if errno == 0 && n.kind == 'd' && len(n.children) > 0 {
 		errno = syscall.ENOTEMPTY
@@ -551,7 +620,12 @@ func Rename(oldpath, newpath string) error {
 		w.done(seq, "rename", oldpath, 0, err, flt, fi, true)
 		return err
 	}
-	n, op, ob, errno := w.lookup(oldpath, false)
+	oldSlash := len(oldpath) > 1 && strings.HasSuffix(oldpath, "/")
+	newSlash := len(newpath) > 1 && strings.HasSuffix(newpath, "/")
+	n, op, ob, errno := w.lookup(trimSlash(oldpath), false)
+	if errno == 0 && oldSlash && n.kind != 'd' {
+		errno = syscall.ENOTDIR // "x/" must be a directory itself, not a file or a link
+	}
 	var err error
 	if errno != 0 || op == nil {
 		if errno == 0 {
@@ -559,14 +633,28 @@ func Rename(oldpath, newpath string) error {
 		}
 		err = &os.LinkError{Op: "rename", Old: oldpath, New: newpath, Err: errno}
 	} else {
-		dn, np, nb, e2 := w.lookup(newpath, false)
+		dn, np, nb, e2 := w.lookup(trimSlash(newpath), false)
+		if e2 == 0 && newSlash && dn.kind != 'd' {
+			e2, np = syscall.ENOTDIR, nil
+		}
 		switch {
 		case e2 != 0 && !(e2 == syscall.ENOENT && np != nil):
 			err = &os.LinkError{Op: "rename", Old: oldpath, New: newpath, Err: e2}
-		case e2 == 0 && dn.kind == 'd' && n.kind != 'd':
-			err = &os.LinkError{Op: "rename", Old: oldpath, New: newpath, Err: syscall.EISDIR}
+		case e2 == 0 && dn.kind == 'd' && dn == n && oldpath != newpath:
+			// one directory under two spellings: os.Rename lets the system call decide, which does nothing
+		case e2 == 0 && dn.kind == 'd':
+			// os.Rename refuses every other existing directory as destination
+			err = &os.LinkError{Op: "rename", Old: oldpath, New: newpath, Err: syscall.EEXIST}
+		case e2 == 0 && dn == n:
+			// the same node under both names: nothing to do
+		case e2 == 0 && n.kind == 'd':
+			err = &os.LinkError{Op: "rename", Old: oldpath, New: newpath, Err: syscall.ENOTDIR}
 		case e2 == 0 && np == nil:
 			err = &os.LinkError{Op: "rename", Old: oldpath, New: newpath, Err: syscall.EINVAL}
+		case n.kind == 'd' && isInside(n, np):
+			err = &os.LinkError{Op: "rename", Old: oldpath, New: newpath, Err: syscall.EINVAL}
+		case n.kind != 'd' && len(newpath) > 1 && strings.HasSuffix(newpath, "/"):
+			err = &os.LinkError{Op: "rename", Old: oldpath, New: newpath, Err: syscall.ENOTDIR}
 		default:
 			delete(op.children, ob)
 			np.children[nb] = n
@@ -574,6 +662,19 @@ func Rename(oldpath, newpath string) error {
 	}
 	w.done(seq, "rename", oldpath, 0, err, flt, fi, false)
 	return err
+}
+
+// isInside: is dir (or a directory below it) the node d?
+func isInside(dir, d *node) bool {
+	if dir == d {
+		return true
+	}
+	for _, c := range dir.children {
+		if c.kind == 'd' && isInside(c, d) {
+			return true
+		}
+	}
+	return false
 }
 
 type dirEntry struct{ fi fileInfo }
@@ -906,4 +1007,14 @@ func walk(path string, info fs.FileInfo, fn filepath.WalkFunc) error {
 		}
 	}
 	return nil
+}
+
+// stalled: the peer has sent everything it will ever send but keeps the stream open (a pipe whose writer lingers,
+// an HTTP server that neither announces a length nor closes): a read at this point blocks for ever. The
+// simulation ends the run there and reports it as non-termination.
+func stalled(seq int, op, name string, flt *Fault, fi int) {
+	w.done(seq, op, name, 0, nil, flt, fi, true)
+	w.res.Overrun = true
+	w.res.OverrunKind = "blocked-read"
+	finish(97, false)
 }
